@@ -78,8 +78,11 @@ class Box:
         shutil.rmtree(self.root, ignore_errors=True)
 
 
-def run_export(make_doc, method, stub_mode, pre, fault_at=None, fault_cls=Fault, record_sites=False, second_fault_at=None):
-    """-> dict(result, before, after, ncalls, sites, captured, stub_output, target_rel)"""
+def run_export(make_doc, method, stub_mode, pre, fault_at=None, fault_cls=Fault, record_sites=False, second_fault_at=None, prelude=None):
+    """-> dict(result, before, after, ncalls, sites, captured, stub_output, target_rel)
+
+    prelude(doc, out_dir): earlier operations on the same document object (exports to other files,
+    edits), run before the snapshot; what they capture is discarded."""
     box = Box(f"{os.getpid()}")
     old_tmp = tempfile.tempdir
     try:
@@ -106,6 +109,10 @@ def run_export(make_doc, method, stub_mode, pre, fault_at=None, fault_cls=Fault,
             with open(target, "wb") as f:
                 f.write(pre_bytes)
         stub = Stub(stub_mode) if stub_mode not in (None, "default") else None
+        if prelude is not None:
+            with contextlib.redirect_stdout(io.StringIO()):
+                prelude(doc, box.out)
+            del captured[:]
         before = snapshot(box.root)
         n = [0]
         sites = []
